@@ -479,6 +479,17 @@ func TestVerifC13(t *testing.T) {
 			return
 		}
 		pa.pathManager.APIPathsList() //nolint:errcheck (barrier: the path manager has processed the new path configurations)
+		// the record cleaner takes new path configurations through a channel and stores them right after receiving them,
+		// in its own goroutine: give that store a bounded moment (the comparison below still decides)
+		for w := 0; w < 50 && pa.recordCleaner != nil; w++ {
+			if reflect.DeepEqual(pa.recordCleaner.PathConfs, pa.conf.Load().Paths) {
+				break
+			}
+			if w == 49 {
+				r.Count("record_cleaner_paths_differ_after_bounded_wait", 1)
+			}
+			time.Sleep(2 * time.Millisecond)
+		}
 		s1 := c13Snapshot(pa)
 		pa.Close()
 		// B: fresh start from new
